@@ -161,7 +161,7 @@ func (c *Conn) clientHandshake() error {
 
 			versOk := candidateSession.vers >= c.config.minVersion() &&
 				candidateSession.vers <= c.config.maxVersion()
-			if versOk && cipherSuiteOk {
+			if versOk && cipherSuiteOk && c.sessionServerCertsAcceptable(candidateSession) {
 				session = candidateSession
 			}
 		}
@@ -209,6 +209,39 @@ func (c *Conn) clientHandshake() error {
 	}
 
 	return nil
+}
+
+// sessionServerCertsAcceptable reports whether a cached session may be offered
+// for resumption under the verification policy of this connection. A resumed
+// handshake takes the server's certificates and the verified chains from the
+// cache without looking at them again, so a client that verifies its peer must
+// not offer a session that was stored without a verified chain (it was made
+// with InsecureSkipVerify), nor one whose server certificate - in a GMSSL
+// session the signing and the encryption certificate - is outside its validity
+// period at the configured time or is not valid for the configured ServerName.
+// The handshake is then a full one, which verifies the certificates the server
+// presents now.
+func (c *Conn) sessionServerCertsAcceptable(session *ClientSessionState) bool {
+	if c.config.InsecureSkipVerify {
+		return true
+	}
+	if len(session.verifiedChains) == 0 || len(session.serverCertificates) == 0 {
+		return false
+	}
+	leaves := session.serverCertificates[:1]
+	if session.vers == VersionGMSSL && len(session.serverCertificates) >= 2 {
+		leaves = session.serverCertificates[:2]
+	}
+	now := c.config.time()
+	for _, cert := range leaves {
+		if now.Before(cert.NotBefore) || now.After(cert.NotAfter) {
+			return false
+		}
+		if err := cert.VerifyHostname(c.config.ServerName); err != nil {
+			return false
+		}
+	}
+	return true
 }
 
 // Does the handshake, either a full one or resumes old session.
